@@ -281,9 +281,14 @@ impl Write for Rec {
     }
     fn flush(&mut self) -> io::Result<()> {
         self.flushes += 1;
+        unsafe {
+            REC_FLUSHES += 1;
+        }
         Ok(())
     }
 }
+/// ghost: flushes that reached any `Rec` (observable when the sink sits behind boxed layers)
+pub static mut REC_FLUSHES: u32 = 0;
 
 impl<'a> crate::layers::traits::LayerWriter<'a, Rec> for Rec {
     fn into_inner(self) -> Option<crate::layers::traits::InnerWriterType<'a, Rec>> {
